@@ -306,7 +306,7 @@ def run_shard(ctx):
                         continue
                     if any(not kind_ok.get((dialect, X.kind_of(nd)), True) for nd in _nodes(bare)):
                         continue
-                    if c in ('where', 'having', 'on') and _is_plain_value(bare):
+                    if c in ('where', 'having', 'on', 'update-where', 'delete-where', 'show-where') and _is_plain_value(bare):
                         # WHERE/HAVING demand an operation; a folded constant such as -1 is not one (not a grouping matter)
                         acc.count('skipped_non_boolean_context')
                         continue
